@@ -201,6 +201,11 @@ def run(tier, seed, only=None):
             obs = idents("total_loads", o["total_loads"], tot, meta={"family": "total loads = sum of the enabled sources"})
             run_obligations(rep, "TotalLoads(%s)[%s]" % (lab, cn), obs, timeout, family=lambda ob: "TotalLoads: " + ob.meta["family"],
                             replay=replay_factory(sc, ins, lambda ob, real, vals, env: float(real["total_loads"][tuple(ob.meta["idx"])])))
+    # the load sources must also *reach* the beam: the real SpatialBeamStates group with every load option on, through its
+    # own wiring (shared with C10: right-hand side = prescribed loads + all enabled sources)
+    from props import c10
+
+    c10.states_group(rep, tier, timeout)
     rep.bounds = {"ny": [c[1] for c in cfgs(tier)], "point_masses": "1 (quick), 1-2 (thorough)"}
     rep.assumptions = ["real arithmetic", "g = 9.80665", "moment reference point p symbolic"]
     return rep.finish("C16: mass / cg / load-sum / moment-sum identities against first-principles sums on symbolic nodes, areas, masses")
